@@ -83,22 +83,22 @@ def table0 : List (Nat × Discharge) := [
   -- cron.SpecSchedule.Next | call | time.Date(t.Year(), t.Month(), 1, 0, 0, 0, 0, loc) #0
   (0x46d0ac7b40ef9d0e, .typeInvariant "SpecSchedule.Location is set by Parse to time.Local or a loaded zone and t.Location() never returns nil: the *time.Location arguments are non-nil"),
   -- cron.SpecSchedule.Next | goto | goto WRAP #0
-  (0x1cdcbc13f1bd2b70, .byTheorem "C04Next" "next_terminates" [])
+  (0x1cdcbc13f1bd2b70, .byTheorem "C04Next" "Kit.CronSpec.next_terminates" [])
 ]
 
 def table1 : List (Nat × Discharge) := [
   -- cron.SpecSchedule.Next | call | time.Date(t.Year(), t.Month(), t.Day(), 0, 0, 0, 0, loc) #0
   (0x362d8ac53d5cfe6a, .typeInvariant "SpecSchedule.Location is set by Parse to time.Local or a loaded zone and t.Location() never returns nil: the *time.Location arguments are non-nil"),
   -- cron.SpecSchedule.Next | goto | goto WRAP #1
-  (0x1cdcbd13f1bd2d23, .byTheorem "C04Next" "next_terminates" []),
+  (0x1cdcbd13f1bd2d23, .byTheorem "C04Next" "Kit.CronSpec.next_terminates" []),
   -- cron.SpecSchedule.Next | call | time.Date(t.Year(), t.Month(), t.Day(), t.Hour(), 0, 0, 0, loc) #0
   (0x95b51087ef98f10d, .typeInvariant "SpecSchedule.Location is set by Parse to time.Local or a loaded zone and t.Location() never returns nil: the *time.Location arguments are non-nil"),
   -- cron.SpecSchedule.Next | goto | goto WRAP #2
-  (0x1cdcbe13f1bd2ed6, .byTheorem "C04Next" "next_terminates" []),
+  (0x1cdcbe13f1bd2ed6, .byTheorem "C04Next" "Kit.CronSpec.next_terminates" []),
   -- cron.SpecSchedule.Next | goto | goto WRAP #3
-  (0x1cdcbf13f1bd3089, .byTheorem "C04Next" "next_terminates" []),
+  (0x1cdcbf13f1bd3089, .byTheorem "C04Next" "Kit.CronSpec.next_terminates" []),
   -- cron.SpecSchedule.Next | goto | goto WRAP #4
-  (0x1cdcc013f1bd323c, .byTheorem "C04Next" "next_terminates" []),
+  (0x1cdcc013f1bd323c, .byTheorem "C04Next" "Kit.CronSpec.next_terminates" []),
   -- cron.SpecSchedule.Next | call | t.In(origLocation) #0
   (0x1f2000c8bf1bffd2, .typeInvariant "SpecSchedule.Location is set by Parse to time.Local or a loaded zone and t.Location() never returns nil: the *time.Location arguments are non-nil"),
   -- time.ParseISO8601Duration | index | from[0] #0
